@@ -812,15 +812,28 @@ def gen_digitlimit(rng, quick=True):
         out.append({'kind': 'convert', 'v': I(z), 't': t, 'stream': 'digitlimit'})
     for d, t in spairs:
         out.append({'kind': 'convert', 'v': S(d), 't': t, 'stream': 'digitlimit'})
+    # validators on ints beyond the digit limit: the model prints the message of a rejection like the code does
+    # (`reject` / `fmt_ok`), so these cases go through the correspondence like all others (finding C14-K9 lives here)
     B = 10 ** 5000
-    NM = lambda w, v, expect: {'kind': 'validate', 'w': w, 'v': v, 'stream': 'digitlimit', 'nomodel': True, 'expect': expect}
-    out += [NM({'k': 'Min', 'bound': I(5), 'incl': True}, I(B), 'accept'), NM({'k': 'Min', 'bound': I(5), 'incl': True}, I(-B), 'reject'),
-            NM({'k': 'Max', 'bound': I(5), 'incl': None}, I(B), 'reject'), NM({'k': 'Max', 'bound': I(5), 'incl': False}, I(-B), 'accept'),
-            NM({'k': 'Min', 'bound': I(B), 'incl': True}, I(5), 'reject'), NM({'k': 'Max', 'bound': I(B), 'incl': True}, F(1e308), 'accept'),
-            NM({'k': 'Unix'}, I(B), 'reject'), NM({'k': 'Unix'}, I(-big), 'reject'),
-            NM({'k': 'IsEnum', 'members': [I(1), I(2)], 'int': True, 'convert': True, 'upper': True}, I(B), 'reject'),
-            NM({'k': 'ForEach', 'cs': [{'k': 'Min', 'bound': I(5), 'incl': True}], 'single': True, 'tuple': False}, L([I(7), I(-B)]), 'reject'),
-            NM({'k': 'Composite', 'cs': [{'k': 'Min', 'bound': I(5), 'incl': True}, {'k': 'Max', 'bound': I(9), 'incl': True}]}, I(B), 'reject')]
+    VC = lambda w, v: V('validate', w, v, 'digitlimit')
+    MIN5, MAX5 = {'k': 'Min', 'bound': I(5), 'incl': True}, {'k': 'Max', 'bound': I(5), 'incl': None}
+    IE12 = {'k': 'IsEnum', 'members': [I(1), I(2)], 'int': True, 'convert': True, 'upper': True}
+    out += [VC(MIN5, I(B)), VC(MIN5, I(-B)), VC(MAX5, I(B)), VC({'k': 'Min', 'bound': I(B), 'incl': True}, I(5)),
+            VC({'k': 'Unix'}, I(B)), VC(IE12, I(B)),
+            VC({'k': 'ForEach', 'cs': [MIN5], 'single': True, 'tuple': False}, L([I(7), I(-B)])),
+            VC({'k': 'MinLength', 'n': 3}, L([I(B)]))]
+    if not quick:
+        out += [VC({'k': 'Max', 'bound': I(5), 'incl': False}, I(-B)), VC({'k': 'Max', 'bound': I(B), 'incl': True}, F(1e308)),
+                VC({'k': 'Max', 'bound': I(-B), 'incl': True}, F(nan)), VC({'k': 'Unix'}, I(-big)),
+                VC({'k': 'Composite', 'cs': [MIN5, {'k': 'Max', 'bound': I(9), 'incl': True}]}, I(B)),
+                VC({'k': 'ForEach', 'cs': [MIN5], 'single': False, 'tuple': False}, L([I(B)])),
+                VC({'k': 'ForEach', 'cs': [MIN5], 'single': False, 'tuple': False}, I(B)),
+                VC({'k': 'MinLength', 'n': 1}, I(B)), VC({'k': 'MaxLength', 'n': 0}, T([I(B)])), VC({'k': 'MaxLength', 'n': 1}, L([I(B)])),
+                VC({'k': 'NotEmpty', 'strip': True}, I(B)), VC({'k': 'NotEmpty', 'strip': True}, L([I(B)])),
+                VC({'k': 'IsUuid', 'convert': True}, I(B)), VC({'k': 'Iso'}, I(B)), VC({'k': 'Iso'}, L([I(B)])),
+                VC({'k': 'MatchPattern', 'pat': r'[0-9]+$'}, I(B)), VC({'k': 'Email', 'pat': None, 'pp': 'id'}, I(B)),
+                VC({'k': 'Unix'}, L([I(B)])), VC(IE12, L([I(B)])),
+                {'kind': 'validate_seq', 'w': MIN5, 'vs': [I(-B), I(7), I(4), I(B)], 'stream': 'digitlimit'}]
     return out
 
 
@@ -1084,8 +1097,10 @@ def evaluate(ck, cases):
         # evaluated next to the ordinary ones.  The ordinary terms are dealt round-robin to one shard per core so that the
         # expensive streams (big ints in bounds / convert) are spread evenly.
         import threading
-        light = [(i, t) for i, t in zip(idx, terms) if len(t) < 12000]
-        heavy = [(i, t) for i, t in zip(idx, terms) if len(t) >= 12000]
+        import re as _re
+        is_heavy = lambda t: len(t) >= 12000 or _re.search(r'0x[0-9a-f]{3000}', t) is not None
+        light = [(i, t) for i, t in zip(idx, terms) if not is_heavy(t)]
+        heavy = [(i, t) for i, t in zip(idx, terms) if is_heavy(t)]
         nsh = max(1, min(NPROC, len(light) // 100))
         light = [light[j] for k in range(nsh) for j in range(k, len(light), nsh)]
 
@@ -1114,9 +1129,13 @@ def matcher(finding, case):
     """narrow syntactic predicates of the open findings"""
     m = finding.get('matcher', {})
     if m.get('id') == 'C14-K9-reject-message-digit-limit':
-        # a rejection whose message formats an int of more than 4300 digits: ValueError from the f-string
-        return (case.get('kind') == 'validate' and bool(case.get('nomodel')) and case.get('expect') == 'reject'
-                and case.get('_obs') == 'leak:ValueError' and (has_huge_int(case.get('v')) or has_huge_int(case.get('w'))))
+        # a value the documented predicate rejects, a ValueError instead of the ValidatorException, and an int of more than
+        # 4300 digits in the value or among the bounds (the message of the rejection has to print it)
+        obs = case.get('_obs')
+        obs = obs[-1] if isinstance(obs, list) and obs else obs
+        vals = [case.get('v')] + list(case.get('vs', []))
+        return (case.get('kind') in ('validate', 'validate_seq') and obs == 'leak:ValueError/reject'
+                and (any(has_huge_int(x) for x in vals) or has_huge_int(case.get('w'))))
     return False
 
 
@@ -1195,8 +1214,8 @@ def run(tier, seed, replay=None):
     ck.coverage.update({'stream_histogram': hist, 'validator_kind_histogram': kinds, 'outcome_histogram': outcomes,
                         'disagreements': sum(len(v) for v in disagreements.values()),
                         'phase_seconds': {'regenerate+build+proofs': round(t_prep, 1), 'implementation+model evaluation': round(t_eval, 1)},
-                        'int_domain': 'model: ints below 10**4000 in absolute value; beyond CPython\'s int<->str digit limit (stream digitlimit) '
-                                      'the implementation is judged against the property text alone'})
+                        'int_domain': 'all ints; the int<->str digit limit of CPython (4300 digits) is modelled - str(int), int(str) and the '
+                                      'messages of the rejections - and exercised by the stream digitlimit through the correspondence'})
     pick = [x for x in zip(cases, impl, model) if x[0]['kind'] != 'prim']
     ck.samples = [{'case': c, 'impl': {k: v for k, v in (i or {}).items() if k != 'oracles'}, 'model': m}
                   for c, i, m in pick[:3] + pick[-3:]]
@@ -1207,7 +1226,8 @@ def run(tier, seed, replay=None):
         'values do not override __eq__/__str__/__len__/__iter__/__lt__; Composite/ForEach children are re-iterable sequences',
         'members of an IntEnum are opaque values in the model (in Python they are ints): no case hands a converted IntEnum member on to a '
         'further validator, and the specification makes no claim there (outside-domain)',
-        'the model has no int<->str digit limit (show_Z is the mathematical printer); finding C14-K8e lives outside it',
+        "CPython's int<->str digit limit (4300) is part of the model: str(int), int(str), and the messages of the rejections, which are "
+        "f-strings over the value / the bound evaluated before the exception is raised (finding C14-K9 is inside the model)",
         'the float str() round trip (shortest repr) is decided by correspondence only (stream roundtrip), not by a theorem',
         'Python `re` decides membership in the regular language of the pattern (checked per case against the derivative matcher, '
         'which is proved to decide the language: C14_regex_matcher_correct)',
